@@ -435,12 +435,45 @@ func (p *Parser) initializePackages(filename string) (*packages.Package, error) 
 			}
 
 			if absGoFile == absFilename {
+				if sibling := leftOutSibling(pkg, absFilename); sibling != "" {
+					return nil, fmt.Errorf("%s was loaded without %s of the same package (its build constraints exclude it from this configuration, or its module is not the one of the working directory): set GOFLAGS=-tags=..., or run kessoku inside its module", filename, sibling)
+				}
 				return pkg, nil
 			}
 		}
 	}
 
 	return nil, errors.New("file is not in the same package")
+}
+
+// leftOutSibling names a source file of filename's directory and package that was not loaded with it,
+// when filename lies in a module and go list could still only load it on its own (as the ad-hoc package
+// command-line-arguments): its injectors would be generated as if that file were the whole package.
+func leftOutSibling(pkg *packages.Package, filename string) string {
+	if pkg.ID != "command-line-arguments" {
+		return ""
+	}
+	dir := filepath.Dir(filename)
+	for root := dir; ; root = filepath.Dir(root) {
+		if _, err := os.Stat(filepath.Join(root, "go.mod")); err == nil {
+			break
+		}
+		if root == filepath.Dir(root) {
+			return "" // outside every module a file can only be loaded on its own
+		}
+	}
+	entries, _ := os.ReadDir(dir)
+	for _, entry := range entries {
+		sibling := filepath.Join(dir, entry.Name())
+		if sibling == filename || filepath.Ext(sibling) != ".go" || strings.HasSuffix(sibling, "_test.go") {
+			continue
+		}
+		f, err := parser.ParseFile(token.NewFileSet(), sibling, nil, parser.PackageClauseOnly|parser.ParseComments)
+		if err == nil && f.Name.Name == pkg.Name && !isKessokuGenerated(f) {
+			return sibling
+		}
+	}
+	return ""
 }
 
 // damagedOutputOverlay returns an overlay that replaces, by an empty file of the package of filename,
